@@ -81,12 +81,10 @@ int main()
         const std::string op = f["op"];
         const IndexType N = std::stoi(f["N"]);
         const IndexType D = std::stoi(f["D"]);
-        DenseMatrix F = v8::parse_matrix(f["feat"]); // N x D
-        DenseMatrix Xt = F.transpose();              // D x N, samples as columns
+        DenseMatrix F = v8::parse_matrix(f["feat"]); // Ntot x D (all samples the callbacks know)
+        DenseMatrix Xt = F.transpose();              // D x Ntot, samples as columns
         v8::matrix_features_callback fcb{&Xt};
-        Idx idx(N);
-        for (IndexType i = 0; i < N; ++i)
-            idx[i] = i;
+        Idx idx = v8::parse_range(f, N);             // the range handed to the library (N selected samples)
         std::ostringstream out;
         std::cerr << "case " << op << " N=" << N << " D=" << D << " k=" << f["k"] << " d=" << f["d"] << " " << f["method"]
                   << "\n";
@@ -119,10 +117,12 @@ int main()
             bool cc = f["cc"] == "1";
             unsigned seed = (unsigned)std::stoul(f["seed"]);
             NeighborsMethod nm = v8::neighbors_method_of(f["nm"]);
-            DenseMatrix K = v8::parse_matrix(f["kern"]);
-            DenseMatrix Dm = v8::parse_matrix(f["dist"]);
-            v8::matrix_kernel_callback kcb{&K};
-            v8::matrix_distance_callback dcb{&Dm};
+            DenseMatrix Kbig = v8::parse_matrix(f["kern"]);
+            DenseMatrix Dbig = v8::parse_matrix(f["dist"]);
+            v8::matrix_kernel_callback kcb{&Kbig};
+            v8::matrix_distance_callback dcb{&Dbig};
+            DenseMatrix K = v8::restrict_square(Kbig, idx); // mirrored kernels work by position in the range
+            DenseMatrix Dm = v8::restrict_square(Dbig, idx);
             DimensionReductionMethod m = method == "npe"     ? NeighborhoodPreservingEmbedding
                                          : method == "lltsa" ? LinearLocalTangentSpaceAlignment
                                                              : LocalityPreservingProjections;
